@@ -4,6 +4,7 @@ mod obs_storage;
 mod refserver;
 mod rep;
 mod store;
+mod task;
 
 use common::*;
 use std::io::Write;
@@ -261,6 +262,67 @@ fn run_rep(args: &Args) {
     std::fs::write(args.out.join("stats.json"), format!("{{{}}}\n", body.join(", "))).unwrap();
 }
 
+fn run_task(args: &Args) {
+    std::fs::create_dir_all(&args.out).unwrap();
+    let mut ops = std::io::BufWriter::new(std::fs::File::create(args.out.join("ops.txt")).unwrap());
+    let mut imp = std::io::BufWriter::new(std::fs::File::create(args.out.join("impl.out")).unwrap());
+    let mut stats: std::collections::HashMap<String, u64> = std::collections::HashMap::new();
+    let mut cases: Vec<(String, Option<Vec<String>>, Option<Rng>, usize)> = Vec::new();
+    let mut files: Vec<PathBuf> = Vec::new();
+    if let Some(r) = &args.replay {
+        files.push(r.clone());
+    } else if let Some(c) = &args.corpus {
+        if let Ok(rd) = std::fs::read_dir(c) {
+            let mut fs: Vec<PathBuf> = rd.filter_map(|e| e.ok().map(|e| e.path())).collect();
+            fs.sort();
+            files.extend(fs);
+        }
+    }
+    for f in &files {
+        for (ci, (_, lines)) in read_cases(f).into_iter().enumerate() {
+            let name = f.file_name().unwrap().to_string_lossy().to_string();
+            cases.push((format!("# case corpus:{}#{}", name, ci), Some(lines), None, 0));
+        }
+    }
+    if args.replay.is_none() {
+        let mut rng = Rng::new(args.seed);
+        for i in 0..args.cases {
+            let mut crng = rng.fork();
+            let len = 5 + crng.below(args.max_len as u64) as usize;
+            cases.push((format!("# case {} seed={}", i, args.seed), None, Some(crng), len));
+        }
+    }
+    // panics inside the library are caught per call; keep their messages out of the way
+    std::panic::set_hook(Box::new(|_| {}));
+    for (hdr, lines, crng, len) in cases {
+        writeln!(ops, "{}", hdr).unwrap();
+        writeln!(imp, "{}", hdr).unwrap();
+        let mut h = task::TaskRun::new();
+        let mut crng = crng;
+        let total = lines.as_ref().map(|l| l.len()).unwrap_or(len);
+        for k in 0..total {
+            let l = match &lines {
+                Some(ls) => ls[k].clone(),
+                None => h.gen_line(crng.as_mut().unwrap()),
+            };
+            let (nl, outs) = h.exec(&l);
+            writeln!(ops, "{}", nl).unwrap();
+            writeln!(imp, "> {}", nl).unwrap();
+            for o in outs {
+                writeln!(imp, "{}", o).unwrap();
+            }
+        }
+        for (k, v) in h.stats.iter() {
+            *stats.entry(k.clone()).or_insert(0) += v;
+        }
+        *stats.entry("cases".into()).or_insert(0) += 1;
+    }
+    let mut keys: Vec<&String> = stats.keys().collect();
+    keys.sort();
+    let body: Vec<String> = keys.iter().map(|k| format!("\"{}\": {}", k, stats[*k])).collect();
+    std::fs::write(args.out.join("stats.json"), format!("{{{}}}\n", body.join(", "))).unwrap();
+}
+
 fn run_store(args: &Args) {
     std::fs::create_dir_all(&args.out).unwrap();
     let mut ops = std::io::BufWriter::new(std::fs::File::create(args.out.join("ops.txt")).unwrap());
@@ -364,6 +426,7 @@ fn main() {
         "hist" => run_hist(&args),
         "rep" => run_rep(&args),
         "store" => run_store(&args),
+        "task" => run_task(&args),
         f => {
             eprintln!("unknown family {}", f);
             std::process::exit(2);
